@@ -460,9 +460,9 @@ def gen_cases(rng, tier):
         cases.append(gen_dupframe(rng))
     for i in range({'quick': 16, 'thorough': 200, 'search': 60}[tier]):
         cases.append(gen_ctor(rng, i))
-    for i in range({'quick': 16, 'thorough': 160, 'search': 60}[tier]):
+    for i in range({'quick': 12, 'thorough': 160, 'search': 60}[tier]):
         cases.append(gen_foreign(rng, i))
-    for i in range({'quick': 16, 'thorough': 160, 'search': 60}[tier]):
+    for i in range({'quick': 12, 'thorough': 160, 'search': 60}[tier]):
         cases.append(gen_history(rng, i))
     # the model is evaluated in shards of consecutive cases: put the cheap kinds first so that the expensive
     # read cases are spread over the shards (stable sort, the draws above are unaffected)
